@@ -269,12 +269,9 @@ impl Request {
     }
 
     pub fn parse_http_request_header_string(header_string: &str) -> Header {
-        let header_parts: Vec<&str> = header_string.split(Header::NAME_VALUE_SEPARATOR).collect();
-        let header_name = StringExt::truncate_new_line_carriage_return(header_parts[0]);
-        let mut header_value= "".to_string();
-        if header_parts.get(1).is_some() {
-            header_value = StringExt::truncate_new_line_carriage_return(header_parts[1]);
-        }
+        let (raw_name, raw_value) = header_string.split_once(Header::NAME_VALUE_SEPARATOR).unwrap_or((header_string, ""));
+        let header_name = StringExt::truncate_new_line_carriage_return(raw_name);
+        let header_value = StringExt::truncate_new_line_carriage_return(raw_value);
 
         Header {
             name: header_name,
